@@ -4,5 +4,5 @@ package main
 import "verifharness/cmd/c42/pipesim"
 
 func main() {
-	pipesim.Main("C44", map[string]int{"plain": 1, "stop": 1, "expiry": 6}, 70, 900)
+	pipesim.Main("C44", map[string]int{"plain": 1, "stop": 1, "expiry": 3, "retry": 4}, 70, 900)
 }
